@@ -166,7 +166,7 @@ int main(int argc, char **argv) {
         for (int i = 0; i < hl; i++) hist.push(J::arr(std::vector<int>{*rng<int>(0, 1), *rng<int>(0, 1), *rng<int>(0, 1)})); // (secret?, FILE?, other key set?)
         int n = *rc::gen::weightedOneOf<int>({{3, rng<int>(1, 16)}, {3, rng<int>(17, 64)}, {1, rng<int>(128, 200)}});
         return mk(n, *rc::gen::weightedElement<int>({{3, 1}, {1, 2}}), *rng<int>(1, std::min(3, 32 / Bgbit)), Bgbit, *rng<int>(1, 3), bb,
-                  std::ldexp(1.0, -*rng<int>(10, 30)), std::ldexp(1.0, -*rng<int>(15, 30)), *genSeed(), *rng<int>(0, 1), hist, *rng<int>(0, 1));
+                  std::ldexp(1.0, -*rng<int>(10, 30)), *rng<int>(0, 7) == 0 ? 0.0 : std::ldexp(1.0, -*rng<int>(15, 30)), *genSeed(), *rng<int>(0, 1), hist, *rng<int>(0, 1));
     });
     return H.finish();
 }
